@@ -92,6 +92,7 @@ struct WorldSpec {
     file_name: String,
     relative_path: bool,
     stdin: Vec<u8>,
+    stdin_not_utf8: bool,
     stdin_kind: StdinKind,
     env: Vec<(String, String)>,
     hash_seed: u64,
@@ -155,6 +156,18 @@ fn gen_world(t: &mut Tape) -> WorldSpec {
         }
         stdin.extend_from_slice(&big);
     }
+    // standard input that is not a text: a Latin-1 byte somewhere, or binary
+    // data after the last line (the library sees the same bytes)
+    let mut stdin_not_utf8 = false;
+    if t.chance(1, 10) {
+        stdin_not_utf8 = true;
+        if t.chance(1, 2) {
+            let at = t.draw(stdin.len() as u32 + 1) as usize;
+            stdin.insert(at, 0xE9);
+        } else {
+            stdin.extend_from_slice(&[0x00, 0xFF, 0xFE, b'\n', 0xC3]);
+        }
+    }
     let fault = match t.weighted(&[24, 2, 1, 1, 1, 2]) {
         0 => FileFault::None,
         1 => FileFault::Missing,
@@ -209,6 +222,7 @@ fn gen_world(t: &mut Tape) -> WorldSpec {
         file_name,
         relative_path: t.chance(1, 2),
         stdin,
+        stdin_not_utf8,
         stdin_kind,
         env,
         hash_seed,
@@ -288,6 +302,23 @@ fn normalise_debug(b: &[u8]) -> Vec<u8> {
         i += 1;
     }
     out
+}
+
+/// The decimal number appears as a token of its own (not inside a longer
+/// number): how the line is labelled is not constrained.
+fn contains_number(hay: &[u8], n: u32) -> bool {
+    let needle = n.to_string().into_bytes();
+    let mut from = 0;
+    while let Some(p) = find_from(hay, &needle, from) {
+        let before_ok = p == 0 || !hay[p - 1].is_ascii_digit();
+        let after = p + needle.len();
+        let after_ok = after >= hay.len() || !hay[after].is_ascii_digit();
+        if before_ok && after_ok {
+            return true;
+        }
+        from = p + 1;
+    }
+    false
 }
 
 fn find_from(hay: &[u8], needle: &[u8], from: usize) -> Option<usize> {
@@ -401,8 +432,17 @@ fn judge(w: &WorldSpec, lib: &Result<LibRef, String>, sep: &ProcResult, shared: 
                     .get(n + 1)
                     .and_then(|d| find_from(&stdout_plain, d.1.as_bytes(), pos))
                     .unwrap_or(stdout_plain.len());
-                let window = &stdout_plain[start..next_issue_at];
-                if !contains(window, format!("line {}", line).as_bytes()) {
+                // the window of this diagnostic, with its own issue and
+                // suggestion texts blanked out (they may contain digits)
+                let mut window = stdout_plain[start..next_issue_at].to_vec();
+                for text in std::iter::once(issue).chain(suggestions.iter()) {
+                    if let Some(p) = find_from(&window, text.as_bytes(), 0) {
+                        for b in &mut window[p..p + text.len()] {
+                            *b = b' ';
+                        }
+                    }
+                }
+                if !contains_number(&window, *line) {
                     return Some(("C20.R5-lint-prints-diagnostics", format!("diagnostic #{} is not reported with its line {}", n, line)));
                 }
                 for s in suggestions {
@@ -618,6 +658,10 @@ impl Property for C20 {
         }
         if !w.stdin.is_empty() && *w.stdin.last().unwrap() != b'\n' {
             stats.inc("probe.stdin_without_final_newline");
+        }
+        if w.stdin_not_utf8 {
+            stats.inc("fault.configured.stdin.not_utf8");
+            stats.inc("fault.fired.stdin.not_utf8");
         }
         if w.env.iter().any(|(k, _)| k == "CLICOLOR_FORCE") {
             stats.inc("probe.colour_forced");
